@@ -91,7 +91,18 @@ func payloadLen(r *rand.Rand, max int) int {
 // the package offers: SetPayload (in place), AppendPayload (in place; pads to the 60 byte Ethernet minimum) and AppendPayload
 // of a payload built elsewhere (copied in; the foreign slice may have any spare capacity).
 func finishEther(r *rand.Rand, ether packet.Ether, l3 []byte) (out packet.Ether, err error, emode int) {
-	switch emode = r.Intn(3); emode {
+	switch emode = r.Intn(4); emode {
+	case 3:
+		// the Ethernet view is reused: it already carries an earlier, shorter frame (a send loop that keeps `ether, err =
+		// ether.AppendPayload(x)`, or a reply built on the view of a received frame) when the real payload is appended
+		ext := append([]byte(nil), l3...)
+		for i := range l3 {
+			l3[i] = 0xee
+		}
+		if prev, e1 := ether.AppendPayload(gen.RandBytes(r, r.Intn(24))); e1 == nil {
+			ether = prev
+		}
+		out, err = ether.AppendPayload(ext)
 	case 0:
 		out, err = ether.SetPayload(l3)
 	case 1:
